@@ -225,11 +225,9 @@ def run(ck):
     scripts, meta = [], {}
     cfgs = [(k, al, sc) for k in ("us", "bal", "up") for al in (0, 1, 2) for sc in (0, 1)]
     for kind, al, sc in cfgs:
-        if kind == "us" and al == 0:
-            pass
         pre = prelude(kind, al, sc)
         for name, f in base_frames(kind, al):
-            muts = mutations(rng, f, masks if sc == 0 or quick is False else masks[:2], quick)
+            muts = mutations(rng, f, masks if sc == 0 else [0x01, 0x80], quick)
             for tag, g in muts:
                 sid = "rx.%s.%d.%d.%s.%s" % (kind, al, sc, name, tag)
                 lines = pre + ["rx " + hx(g), "run", "run", "run"]
